@@ -45,6 +45,12 @@ func c14Corpus(c *Check) []c14Prog {
 		c14Prog{"subdir", map[string]string{"main.tsh": "import h \"sub/dir/h.tsh\"\nimport2 := 1\nprint(h.Get5(), import2)\n", "sub/dir/h.tsh": lib(5)}},
 		c14Prog{"std-and-local", map[string]string{"main.tsh": "import (\n\t\"strings\"\n\tl \"lib.tsh\"\n)\n\nprint(strings.HasPrefix(\"abc\", \"a\"), l.Get6())\n", "lib.tsh": "import \"strings\"\n\n" + lib(6) + "func Up() bool {\n\treturn strings.HasSuffix(\"abc\", \"c\")\n}\n"}},
 		c14Prog{"all-builtins", map[string]string{"main.tsh": "s := []string{\"a\"}\ns[3] = \"d\"\nt := []string{}\nn := copy(t, s)\nwrite(\"f.txt\", \"x\")\nwrite(\"f.txt\", \"y\", true)\nif exists(\"f.txt\") {\n\tprint(read(\"f.txt\"), n, len(s), len(\"abc\"), itoa(5), s[0])\n}\na, b, code := @echo(\"hi\") | @cat()\nprint(a, code)\nv := input(\"p: \")\nprint(v)\npanic(\"end\")\n"}},
+		// same main file bytes, different imported files: the output must follow the imports
+		c14Prog{"twin-a", map[string]string{"main.tsh": "import l \"lib.tsh\"\n\nprint(l.Get7(), l.Twice7(2))\n", "lib.tsh": lib(7)}},
+		c14Prog{"twin-b", map[string]string{"main.tsh": "import l \"lib.tsh\"\n\nprint(l.Get7(), l.Twice7(2))\n", "lib.tsh": strings.Replace(lib(7), "return 7", "return 70", 1)}},
+		c14Prog{"twin-c", map[string]string{"main.tsh": "import l \"lib.tsh\"\n\nprint(l.Get7(), l.Twice7(2))\n", "lib.tsh": lib(7) + "x := 1 + \"a\"\n"}},
+		c14Prog{"twin-deep-a", map[string]string{"main.tsh": "import l \"mid.tsh\"\n\nprint(l.Mid())\n", "mid.tsh": "import b \"base.tsh\"\n\nfunc Mid() int {\n\treturn b.Get8()\n}\n", "base.tsh": lib(8)}},
+		c14Prog{"twin-deep-b", map[string]string{"main.tsh": "import l \"mid.tsh\"\n\nprint(l.Mid())\n", "mid.tsh": "import b \"base.tsh\"\n\nfunc Mid() int {\n\treturn b.Get8()\n}\n", "base.tsh": strings.Replace(lib(8), "return 8", "return 80", 1)}},
 		c14Prog{"fail-lexical", map[string]string{"main.tsh": "x := \"unterminated\nprint(x)\n"}},
 		c14Prog{"fail-syntax", map[string]string{"main.tsh": "if true {\nprint(1)\n"}},
 		c14Prog{"fail-type", map[string]string{"main.tsh": "x := 1 + \"a\"\n"}},
@@ -73,7 +79,7 @@ func shaOf(s string) string {
 }
 
 func checkC14(c *Check) {
-	c.Rule = "event log {process, history, step, tree location, program, target} -> sha256(script) | error, checked offline: for each (program, target) all hashes must be equal. Histories: every ordered pair of (program, target) calls on one transpiler object, random histories of 3-15 calls on one object (fresh converter per call), the whole corpus in N fresh processes (different map seeds), in 3 relocated copies of the source tree (deep path, path with blanks, relative path with another cwd); secondary monitor: the Converter-boundary call trace of a recording wrapper must be identical for identical (program, target). Non-trivial = an observation of a program that transpiles successfully; distinct = (history, step)"
+	c.Rule = "event log {process, history, step, tree location, program, target} -> sha256(script) | error, checked offline: for each (program, target) all hashes must be equal. Histories: every ordered pair of (program, target) calls on one transpiler object, random histories of 3-15 calls on one object (fresh converter per call), edit histories (the tree under one path is overwritten between calls on one object with programs that share the main file's bytes but not the imports'), the whole corpus in N fresh processes (different map seeds), in 3 relocated copies of the source tree (deep path, path with blanks, relative path with another cwd); secondary monitor: the Converter-boundary call trace of a recording wrapper must be identical for identical (program, target). Non-trivial = an observation of a program that transpiles successfully; distinct = (history, step)"
 	c.Assumptions = []string{"a fresh converter per Transpile call, as the anchor states the contract", "error texts may contain paths: for failing programs only 'is an error' is compared"}
 	corpus := c14Corpus(c)
 	root := filepath.Join(scratch(), "c14")
@@ -156,6 +162,35 @@ func checkC14(c *Check) {
 		hjobs = append(hjobs, hjob{fmt.Sprintf("random/%d", k), loc, cs})
 	}
 	parallelDo(len(hjobs), 16, func(i int) { runHistory(hjobs[i].name, hjobs[i].loc, hjobs[i].calls, i%7 == 0) })
+	// 3b. edit histories: one transpiler object, the files of a tree are overwritten between calls with
+	// the bytes of another corpus program (same main file, other imports, and back); each call is
+	// recorded under the program whose bytes were on disk at that moment
+	{
+		byName := map[string]int{}
+		for i, p := range corpus {
+			byName[p.name] = i
+		}
+		for hi, seq := range [][]string{{"twin-a", "twin-b", "twin-a", "twin-c", "twin-b"}, {"twin-b", "twin-a"}, {"twin-deep-a", "twin-deep-b", "twin-deep-a"}, {"twin-c", "twin-a", "twin-c"}, {"twin-a", "chain", "twin-b", "diamond", "twin-a"}} {
+			for _, t := range targets {
+				dir := filepath.Join(root, fmt.Sprintf("edit-%d-%s", hi, t))
+				tr := transpiler.New()
+				for step, name := range seq {
+					p := corpus[byName[name]]
+					os.RemoveAll(dir)
+					WriteSources(dir, p.files, "main.tsh")
+					func() {
+						defer func() {
+							if r := recover(); r != nil {
+								record(c14Event{"main", fmt.Sprintf("edit/%d", hi), step, "edited-in-place", p.name, t, "panic:" + fmt.Sprint(r), true, ""})
+							}
+						}()
+						s, err := tr.Transpile(filepath.Join(dir, "main.tsh"), newConverter(t))
+						record(c14Event{"main", fmt.Sprintf("edit/%d", hi), step, "edited-in-place", p.name, t, shaOf(s), err != nil, ""})
+					}()
+				}
+			}
+		}
+	}
 	// 4. relocated copies, whole corpus
 	for _, loc := range []string{"deep", "blank"} {
 		runHistory("relocated/"+loc, loc, all, true)
